@@ -30,6 +30,7 @@ import (
 	"github.com/dominant-strategies/go-quai/ethdb/memorydb"
 	"github.com/dominant-strategies/go-quai/ethdb/pebble"
 	"github.com/dominant-strategies/go-quai/log"
+	"github.com/dominant-strategies/go-quai/params"
 	"verifharness/wallet"
 )
 
@@ -52,10 +53,14 @@ func (s *stubChain) CalcOrder(*types.WorkObject) (*big.Int, int, error) {
 	return big.NewInt(0), common.ZONE_CTX, nil
 }
 
+// baseFee of the block headers: 0 (fees are not required; conversions impossible: the conversion ETX's gas is fee / base fee)
+// or 1 wei (regime BaseFeeOn of QiLedger.tla: a fee of one qit covers any transaction of the universes)
+var baseFee int64
+
 func header(number uint64) *types.WorkObject {
 	h := types.EmptyZoneWorkObject()
 	h.Header().SetGasLimit(50_000_000)
-	h.Header().SetBaseFee(big.NewInt(0))
+	h.Header().SetBaseFee(big.NewInt(baseFee))
 	h.Header().SetExchangeRate(new(big.Int).Lsh(big.NewInt(1), 70))
 	h.WorkObjectHeader().SetDifficulty(big.NewInt(1_000_000_000))
 	h.WorkObjectHeader().SetNumber(new(big.Int).SetUint64(number))
@@ -77,6 +82,7 @@ type TxDef struct {
 	Outs  []OutDef `json:"outs"`
 	Sig   string   `json:"sig"`
 	Chain string   `json:"chain"`
+	Data  string   `json:"data,omitempty"` // "conv": carries conversion data
 }
 type GenDef struct {
 	D     int    `json:"d"`
@@ -114,7 +120,9 @@ func (w *world) key(name string) wallet.Key {
 	return k
 }
 
-func genesisHash(id string) common.Hash { return crypto.Keccak256Hash([]byte("genesis-outpoint-" + id)) }
+func genesisHash(id string) common.Hash {
+	return crypto.Keccak256Hash([]byte("genesis-outpoint-" + id))
+}
 
 // realOutpoint resolves an abstract outpoint [txid, idx] to the real (hash, index)
 func (w *world) realOutpoint(o []interface{}) types.OutPoint {
@@ -171,7 +179,15 @@ func (w *world) tx(id string) *types.Transaction {
 		}
 	}
 	signer := types.NewSigner(cid, loc)
-	t, err := wallet.QiTx(signer, cid, ins, outs, nil, signKeys)
+	var data []byte
+	if d.Data == "conv" {
+		// two bytes of slip tolerance + the Qi address a refused conversion is refunded to
+		data = append([]byte{0x00, 0x64}, w.key("refund").Addr.Bytes()...)
+		if len(data) != params.MaxQiTxDataLength {
+			panic("conversion data length")
+		}
+	}
+	t, err := wallet.QiTx(signer, cid, ins, outs, data, signKeys)
 	if err != nil {
 		panic(err)
 	}
@@ -202,6 +218,10 @@ func classify(err error) string {
 		return "ledger"
 	case strings.Contains(m, "is less than the amount"):
 		return "value"
+	case strings.Contains(m, "insufficient fee for base fee"):
+		return "fee"
+	case strings.Contains(m, "multiple convert UTXOs with different To addresses"):
+		return "convaddr"
 	case strings.Contains(m, "combine smaller denominations"):
 		return "denoms"
 	case strings.Contains(m, "invalid signature"):
@@ -405,6 +425,7 @@ func cmdReplay(args []string) {
 	defsPath := fs.String("defs", "", "")
 	out := fs.String("out", "", "")
 	dir := fs.String("dir", "", "")
+	fs.Int64Var(&baseFee, "basefee", 0, "base fee of the block headers (wei)")
 	fs.Parse(args)
 	log.Global.SetOutput(io.Discard)
 	defs := loadDefs(*defsPath)
@@ -521,7 +542,6 @@ func main() {
 }
 
 var _ = rand.New
-
 
 // random mode: a seeded universe of transactions (valid ones and deviations: double spends, wrong keys, locked
 // inputs, value creation, merges, bad signatures, foreign chain id, Quai / other-zone destinations), random
